@@ -1,6 +1,8 @@
-\* Every block shape with <= 4 transactions x omitted set x offered subset x extras x order: 3 282 cases, ~5 s.
+\* Every block of <= 4 transactions x pattern of equal members x omitted position set x offered subset x extras x order:
+\* 17 244 cases (3 282 on blocks of distinct transactions), ~4 s.
 SPECIFICATION Spec
 CONSTANTS
   MaxTx = 4
-INVARIANTS OutlineIsDefinition SameID MissingExact CompleteExact CodecIdentity
+  MaxRep = 4
+INVARIANTS OutlineIsDefinition SameID MissingExact CompleteExact SecondCallCompletes CodecIdentity
 CHECK_DEADLOCK FALSE
